@@ -11,6 +11,7 @@ pub enum DiagnosticInfoMessage {
     CannotUseInterfaceInValuePosition,
     ExpressionIsNotAType,
     TupleRestTypeMustBeArray,
+    TupleRestMustBeLast,
     CannotUseStarImportInValuePosition,
     CannotUseStarImportInTypePosition,
     CannotUseTypeInQualifiedTypePosition,
@@ -562,6 +563,9 @@ impl DiagnosticInfoMessage {
             }
             DiagnosticInfoMessage::TupleRestTypeMustBeArray => {
                 "Rest type in tuple must be an array type".to_string()
+            }
+            DiagnosticInfoMessage::TupleRestMustBeLast => {
+                "Elements after the rest element of a tuple are not supported".to_string()
             }
             DiagnosticInfoMessage::ExpressionIsNotAType => {
                 "Expression is not a type".to_string()
